@@ -101,6 +101,23 @@ def ops_catalogue():
     add("t[...] = r (exact dims)", dict(t=("abc", VZ), r=("abc", VX)), assign_all, lambda L: tuple(L["t"]))
     add("t[...] = r (surplus dim)", dict(t=("abc", VZ), r=("abcd", VX)), assign_all, lambda L: tuple(L["t"]))
 
+    def assign_then_edit(P, it):
+        # assign, then edit the TARGET in place, then look at the right-hand side again
+        t = P["t"].copy()
+        t[...] = P["r"]
+        t.values[...] = -1.0
+        return P["r"]
+
+    add("t[...] = r; edit t in place; r afterwards", dict(t=("abc", VZ), r=("abc", VX)), assign_then_edit, lambda L: tuple(L["r"]))
+
+    def assign_then_edit_rhs(P, it):
+        t = P["t"].copy()
+        t[...] = P["r"]
+        P["r"].values[...] = -1.0
+        return t
+
+    add("t[...] = r; edit r in place; t afterwards", dict(t=("abc", VZ), r=("abc", VX)), assign_then_edit_rhs, lambda L: tuple(L["t"]))
+
     def assign_item(P, it):
         t = P["t"].copy()
         t[{"b": it["b"][-1]}] = P["r"]
